@@ -82,6 +82,7 @@ def main():
         "ROUND2": ["| seed | change | result of `./check` (quick tier) |", "|---|---|---|"] + seeds("-2"),
         "ROUND3": ["| seed | change | result of `./check` (quick tier) |", "|---|---|---|"] + seeds("-3"),
         "ROUND4": ["| seed | change | result of `./check` (quick tier) |", "|---|---|---|"] + seeds("-4"),
+        "ROUND5": ["| seed | change | result of `./check` (quick tier) |", "|---|---|---|"] + seeds("-5"),
         "HARMLESS2": ["| patch | what it rewrites | first run | final |", "|---|---|---|---|"] + harmless("harmless2"),
         "HARMLESS": ["| patch | what it rewrites | first run | after the corrections of Appendix A.9 |", "|---|---|---|---|"] + harmless(),
     }
